@@ -50,9 +50,6 @@ def run(ctx):
             printed.setdefault(m["class"].split("_long")[0] + (":" + m["pos"] if m.get("pos") and not m["class"].startswith("tok_") else ""), []).append(hit)
     # (the argument-count diagnostic is a warning that is only printed on request: C20 asks for it, this check does not)
     vac = sorted(k for k, v in printed.items() if not any(v) and not k.startswith(("lex_nonascii", "argcount")))
-    if vac:
-        from vf.common import InfraError
-        raise InfraError("mutant classes that never provoke their diagnostic family (vacuous): %s" % vac)
     cov["family_printed_by_class"] = {k: "%d/%d" % (sum(v), len(v)) for k, v in sorted(printed.items())}
     lines = []
     owner = []
@@ -87,6 +84,11 @@ def run(ctx):
                 "evaluations": len(jobs), "distinct_nontrivial": len(ins),
                 "rule": "valid family (inheritance shape x supertype expression x ABSTRACT x attribute preset x rules x "
                         "second schema) + every single-fault mutant class at its positions; x 4 tools"})
+    cov["vacuous_classes"] = vac
+    if vac and not ctx.violations:
+        # nothing else disagreed, but part of the family was never exercised on this tree: no verdict rather than a pass
+        from vf.common import InfraError
+        raise InfraError("mutant classes that never provoke their diagnostic family (vacuous): %s" % vac)
     return {"level": "model_checking", "coverage": cov, "assumptions": [
         "'bad INVERSE' is covered by an unknown inverted attribute (a type-incompatible inverted attribute is not "
         "diagnosed by the front end and is not claimed)",
